@@ -48,7 +48,7 @@ func (x *Exec) evalClause(e gcl.Expr, st, old *State, fr *frame, results []smt.T
 	return x.evalClauseExtra(e, st, old, fr, results, nil)
 }
 
-func (x *Exec) evalClauseExtra(e gcl.Expr, st, old *State, fr *frame, results []smt.T, extra map[string]smt.T) (smt.T, error) {
+func (x *Exec) evalClauseExtra(e gcl.Expr, st, old *State, fr *frame, results []smt.T, extra map[string]binding) (smt.T, error) {
 	env := map[string]binding{}
 	for n, b := range x.params {
 		env[n] = b
@@ -69,7 +69,7 @@ func (x *Exec) evalClauseExtra(e gcl.Expr, st, old *State, fr *frame, results []
 		}
 	}
 	for n, r := range extra {
-		env[n] = binding{r, nil}
+		env[n] = r
 	}
 	pkg := ""
 	if x.contract != nil {
